@@ -558,3 +558,11 @@ def rope_eq(a, b):
     if not conj:
         return True
     return mkbool(z3.And(*conj))
+
+
+def mk_open_rest(ctx, seq, cnt):
+    """OpenRest with its length variable"""
+    from .values import OpenRest
+    n = ctx.fresh_int("restlen", 0)
+    ctx.assume(z3.Length(seq) == n)
+    return OpenRest(seq, cnt, n)
